@@ -424,6 +424,16 @@ def x7_shims(text, log):
         return "vx_collect_string(%s)" % m.group(1)
     text = re.sub(r"\b(chars)\.into_iter\(\)\.collect\(\)", collectstr, text)
 
+    def decsniff(m):
+        log.add("X7:vx_decode_sniffing")
+        return "vx_decode_sniffing(%s, %s)" % (m.group(1), m.group(2)) + _nl(m.group(0))
+    text = re.sub(r"\b(self\.encoding\(\))\s*\.decode\(([a-z_][a-z0-9_]*)\)\s*\.0\s*\.into_owned\(\)", decsniff, text)
+
+    def decplain(m):
+        log.add("X7:vx_decode_plain")
+        return "vx_decode_plain(%s, %s)" % (m.group(1), m.group(2)) + _nl(m.group(0))
+    text = re.sub(r"\b(self\.encoding\(\))\s*\.decode_without_bom_handling\(([a-z_][a-z0-9_]*)\)\s*\.0\s*\.into_owned\(\)", decplain, text)
+
     def bsearch(m):
         log.add("X7:vx_bsearch_key0")
         return "vx_bsearch_key0(%s, %s)" % (m.group(1), m.group(2))
